@@ -139,10 +139,10 @@ class Recorder:
         for blk in blocks:
             nm = _blk_name(top, blk)
             if nm.startswith("net:") and self._is_clk_reset(nm):
-                self.ignored.add(blk.__code__)
+                self.ignored.add(id(blk.__code__))
                 continue
             idx = self.name2idx.get(nm, 0)
-            self.code2idx[blk.__code__] = idx
+            self.code2idx[id(blk.__code__)] = idx      # by identity: equal code objects of two generated blocks compare equal
             self.blocks[idx] = blk
             if idx == 0:
                 self.unknown = nm
@@ -174,7 +174,7 @@ class Recorder:
         if event != "return":
             return
         code = frame.f_code
-        idx = self.code2idx.get(code)
+        idx = self.code2idx.get(id(code))
         if idx is not None:
             k = "ff" if self.kind.get(idx) == "ff" else "step"
             self.events.append({"k": k, "b": idx, "st": self.snapshot()})
